@@ -16,6 +16,7 @@ package raft
 import (
 	"fmt"
 	"sort"
+	"strings"
 )
 
 // electOnly fires an election timeout at n and delivers only vote traffic.
@@ -164,6 +165,9 @@ func adversaryTargets(s *simState) []advTarget {
 		}
 		if lacks {
 			out = append(out, advTarget{"leader-without-committed", b.idx})
+			// the same, but nobody is spared the request: only the current leaders are cut off, so the
+			// voters that hold the committed entries must themselves refuse
+			out = append(out, advTarget{"leader-without-committed-open", b.idx})
 		}
 	}
 	return out
@@ -210,6 +214,18 @@ func runAdversary(sc *simScenario, hist []simEvent) []simViolation {
 					break
 				}
 			}
+		case "leader-without-committed-open":
+			for _, x := range w.nodes {
+				if x != z && x.up && x.r.state == Leader {
+					s.isolate(x)
+				}
+			}
+			s.deliverDisconnects()
+			for i := 0; i < 5 && z.up && z.r.state != Leader; i++ {
+				if err := s.electOnly(z); err != nil {
+					break
+				}
+			}
 		case "leader-without-committed":
 			// cut off every node whose log would make it refuse z, then z campaigns
 			for _, o := range w.nodes {
@@ -224,7 +240,7 @@ func runAdversary(sc *simScenario, hist []simEvent) []simViolation {
 				}
 			}
 		}
-		if tg.kind == "leader-without-committed" && z.up && z.r.state == Leader && len(w.led.viol) > base {
+		if strings.HasPrefix(tg.kind, "leader-without-committed") && z.up && z.r.state == Leader && len(w.led.viol) > base {
 			// the hostile schedule worked: let the cluster run on under the new leader (partitions healed, one
 			// more client update) so that the consequences for state machines and clients are observed as well
 			s.healAll()
